@@ -37,8 +37,8 @@ pub fn gen_c09(rng: &mut Rng, _k: usize, _tier: &str) -> J {
     let mut aggs: Vec<String> = (0..n).map(|i| format!("{} AS a{i}", rng.pick(pool))).collect();
     let (keys, from): (Vec<&str>, String) = if from_orders { (vec![], "orders".into()) }
         else if joined { aggs = aggs.iter().map(|a| a.replace("income", "users.income").replace("(age", "(users.age").replace("city", "users.city")).collect();
-                         (match rng.below(2) { 0 => vec![], _ => vec!["users.city"] }, "users JOIN orders ON users.id = orders.user_id".into()) }
-        else { (match rng.below(2) { 0 => vec![], _ => vec!["city"] }, "users".into()) };   // only public-valued keys (city has a declared finite value set)
+                         (match rng.below(3) { 0 => vec![], 1 => vec!["users.city"], _ => vec!["users.city", "users.seg"] }, "users JOIN orders ON users.id = orders.user_id".into()) }
+        else { (match rng.below(4) { 0 => vec![], 1 => vec!["city"], 2 => vec!["city", "seg"], _ => vec!["seg", "city"] }, "users".into()) };   // only public-valued keys (city and seg have a declared finite value set)
     let where_ = if rng.chance(1, 3) { if from_orders { " WHERE qty > 2" } else if joined { " WHERE users.age > 30" } else { " WHERE age > 30" } } else { "" };
     let mut items: Vec<String> = keys.iter().enumerate().map(|(i, c)| format!("{c} AS k{i}")).collect(); items.extend(aggs);
     let mut sql = format!("SELECT {} FROM {from}{where_}{}", items.join(", "), if keys.is_empty() { String::new() } else { format!(" GROUP BY {}", keys.join(", ")) });
